@@ -788,6 +788,14 @@ impl VersionSet {
     }
 }
 
+#[cfg(raindb_verif)]
+impl VersionSet {
+    /// Number of versions currently linked in the version list (verification accessor).
+    pub(crate) fn verif_num_versions(&self) -> usize {
+        self.versions.iter().count()
+    }
+}
+
 /// Private methods
 impl VersionSet {
     /// Add a new version to the version set.
